@@ -84,3 +84,18 @@ def _twin(pid, v):
         return False
     return (v["clause"], v["outcome"]) in (("not-the-annotated-class", "twin"), ("roundtrip-raised", "InvalidFieldValue"),
                                            ("roundtrip-raised", "ValueError"))
+
+
+@scope("F-DISCRIMINATOR-TYPEERROR")
+def _disc_typeerror(pid, v):
+    f = (v["case"].get("facts") or {})
+    if pid != "C05" or f.get("scenario") != "discriminator" or (v["clause"], v["outcome"]) != ("exception-type", "TypeError"):
+        return False
+    return (f.get("whole") is True and f.get("argument_kind") != "dict") or f.get("unhashable_tag") is True
+
+
+@scope("F-EMPTY-DATACLASS-NONMAPPING")
+def _empty_dc(pid, v):
+    f = (v["case"].get("facts") or {})
+    return (pid == "C05" and f.get("empty_dataclass") is True and f.get("whole") is True and f.get("argument_kind") != "dict"
+            and v["clause"] == "invalid-input-accepted")
